@@ -576,6 +576,38 @@ def run_server(ctx, reps):
                              "iv_hex": iv.hex()}])[0]
                 if back.get("status") != "ok" or bytes.fromhex(back["data"]["c"]) != pt:
                     ctx.report("c06:server-decrypt-not-inverse:%d" % mode, "Decrypt(Encrypt(m)) != m through the server", {"kind": "server"})
+            # block ciphers of DIFFERENT block sizes with the same padding method, alternating on the one server
+            # process: each ciphertext equals an independent use of that cipher (padding to ITS block size)
+            k3 = rb(24)
+            tdes = register(k3, 2, 4 | 8)
+            for alg_uid, alg_key, alg_code, acls, bs in ((base, key, 3, algorithms.AES, 16), (tdes, k3, 2, algorithms.TripleDES, 8),
+                                                          (base, key, 3, algorithms.AES, 16), (tdes, k3, 2, algorithms.TripleDES, 8)):
+                for padcode in (3, 6):
+                    pt, iv = rb(r.choice([3, 5, 11])), rb(bs)
+                    cp = {"mode": 1, "padding": padcode, "alg": alg_code}
+                    res = req([{"op": "encrypt", "bid": None, "uid": alg_uid, "params": True, "cp": cp, "data_hex": pt.hex(),
+                                "iv_hex": iv.hex()}])[0]
+                    count += 1
+                    if res.get("status") != "ok":
+                        ctx.report("c06:server-encrypt-refused:alg%d" % alg_code, "Encrypt failed: %s" % res.get("msg"),
+                                   {"kind": "server", "alg": alg_code, "padding": padcode})
+                        continue
+                    ct = bytes.fromhex(res["data"]["c"])
+                    n = bs - len(pt) % bs
+                    padded = pt + (bytes([n]) * n if padcode == 3 else bytes(n - 1) + bytes([n]))
+                    c = Cipher(acls(alg_key), modes.CBC(iv), backend=default_backend()).encryptor()
+                    if ct != c.update(padded) + c.finalize():
+                        ctx.report("c06:server-encrypt-differs:alg%d:pad%d" % (alg_code, padcode),
+                                   "Encrypt (algorithm %d, CBC, padding %d) of a %d-byte message gives %d bytes that differ from an "
+                                   "independent use of the cipher with padding to its %d-byte block"
+                                   % (alg_code, padcode, len(pt), len(ct), bs),
+                                   {"kind": "server", "alg": alg_code, "padding": padcode, "pt": pt.hex(), "iv": iv.hex()})
+                    back = req([{"op": "decrypt", "bid": None, "uid": alg_uid, "params": True, "cp": cp, "data_hex": ct.hex(),
+                                 "iv_hex": iv.hex()}])[0]
+                    if back.get("status") != "ok" or bytes.fromhex(back["data"]["c"]) != pt:
+                        ctx.report("c06:server-decrypt-not-inverse:alg%d:pad%d" % (alg_code, padcode),
+                                   "Decrypt(Encrypt(m)) != m through the server (algorithm %d, padding %d)" % (alg_code, padcode),
+                                   {"kind": "server", "alg": alg_code, "padding": padcode})
     finally:
         Eg.close()
     return count
